@@ -7,11 +7,6 @@ from ...core.time import TimeDependent
 
 class TDRedfieldRelaxationTensor(RedfieldRelaxationTensor, TimeDependent):
 
-    # FIXME: mimick the time-independent case
-    Lm = None  # we isolate the operators defined by inheritance as time-independent
-    Ld = None
-    Km = None
-    
     def _implementation(self, ham, sbi):
         """ Reference implementation, completely in Python
         
@@ -238,13 +233,13 @@ class TDRedfieldRelaxationTensor(RedfieldRelaxationTensor, TimeDependent):
 
         if not self._data_initialized:
             for tt in range(self.Nt):
-                for m in range(self.Km.shape[0]):
-                    self.Lm[tt, m, :, :] = \
-                    numpy.dot(S1,numpy.dot(self.Lm[tt, m, :, :],SS))
-                    self.Ld[tt, m, :, :] = \
-                    numpy.dot(S1,numpy.dot(self.Ld[tt, m, :, :],SS))            
-            for m in range(self.Km.shape[0]):
-                self.Km[m, :, :] = numpy.dot(S1,numpy.dot(self.Km[m, :, :],SS))
+                for m in range(self._Km.shape[0]):
+                    self._Lm[tt, m, :, :] = \
+                    numpy.dot(S1,numpy.dot(self._Lm[tt, m, :, :],SS))
+                    self._Ld[tt, m, :, :] = \
+                    numpy.dot(S1,numpy.dot(self._Ld[tt, m, :, :],SS))            
+            for m in range(self._Km.shape[0]):
+                self._Km[m, :, :] = numpy.dot(S1,numpy.dot(self._Km[m, :, :],SS))
                 
             return
         
